@@ -44,6 +44,44 @@ pub fn run(r: &mut Report) {
         r.case(c.id, json!({"steps": {"a": "key2", "b": "key3"}, "link_a_signed_by": c.signer_a, "link_b_signed_by": c.signer_b, "link_b_file_prefix_of": c.file_b, "tampered": c.tamper}),
                if c.expect_ok { "Ok" } else { "Err" }, match &res { Ok(v) => verdict(v), Err(p) => format!("panic: {}", p) }, ok);
     }
+    // evidence kind x signer authorisation: a step's slot can be filled with a link OR a sub-layout, and in both cases only by a
+    // functionary the step itself authorises (table membership alone is not enough), with a valid signature
+    {
+        let kt = key(5); // in the layout's key table, authorised for no step
+        let ki = key(6); // inner functionary of the sub-layout
+        let all = [(&kb, "authorised-for-step", true), (&ka, "functionary-of-other-step", false), (&kt, "in-table-no-step", false), (&kc, "absent-from-layout", false)];
+        for sub in [false, true] {
+            for bad_sig in [false, true] {
+                for (signer, who, authorised) in all.iter() {
+                    let d = tmpdir();
+                    write_link(d.path(), "a", ka.key_id(), &signed_link(&la, &[&ka]));
+                    let mut ev = if sub {
+                        let inner = layout(vec![step("inner", 1, &[&ki], allow_all(), allow_all())], vec![], &[&ki], 30);
+                        let subdir = d.path().join(format!("b.{}", signer.key_id().prefix()));
+                        std::fs::create_dir_all(&subdir).unwrap();
+                        write_link(&subdir, "inner", ki.key_id(), &signed_link(&link("inner", &[("x", 1)], &[("y", 2)]), &[&ki]));
+                        signed_layout(&inner, &[signer])
+                    } else {
+                        signed_link(&lb, &[signer])
+                    };
+                    if bad_sig {
+                        // signature taken from a different document of the same signer
+                        let other = signed_link(&link("b", &[("x", 1)], &[("other", 9)]), &[signer]);
+                        ev.signatures = other.signatures.clone();
+                    }
+                    write_link(d.path(), "b", signer.key_id(), &ev);
+                    let l = layout(vec![step("a", 1, &[&ka], allow_all(), allow_all()), step("b", 1, &[&kb], allow_all(), allow_all())],
+                                   vec![], &[&ka, &kb, &kt], 30);
+                    let lay = signed_layout(&l, &[&owner]);
+                    let res = no_panic(|| in_toto_verify(&lay, owner_keys(&[&owner]), d.path().to_str().unwrap(), None));
+                    let expect = *authorised && !bad_sig;
+                    r.case("evidence-kind-x-signer", json!({"evidence_for_step_b": if sub { "sub-layout" } else { "link" }, "signer": who, "signature": if bad_sig { "of another document" } else { "valid" }}),
+                           if expect { "Ok" } else { "Err" }, match &res { Ok(v) => verdict(v), Err(p) => format!("panic: {}", p) },
+                           matches!(&res, Ok(v) if v.is_ok() == expect));
+                }
+            }
+        }
+    }
     // one functionary cannot fill a second functionary's slot with a bogus signature entry naming the other key
     {
         let d = tmpdir();
